@@ -55,6 +55,18 @@ Theorem C12_open2n2_addcrt_stores_byte :
 Proof. exact O2_Slot.o2_addcrt_eq. Qed.
 Print Assumptions C12_open2n2_addcrt_stores_byte.
 
+(* Open2N2 Remove moves the (short hash, hash-probe byte) pair of slot 3-count into the freed slot: each remaining
+   element keeps exactly the bytes AddCrt stored for it, so the slot-level theorem applies after any add/remove history. *)
+Theorem C12_open2n2_remove_moves_pair :
+  forall st sh hp idx, 0 <= Gen_O2.pvGetCount st sh hp <= 3 ->
+    Gen_O2.Remove st sh hp idx =
+      let c := Gen_O2.pvGetCount st sh hp in
+      if idx >=? 3 - c then
+        Ok (tt, upd st 1 (wrapU 8 (st 1 - 1)), upd (upd sh idx (sh (3 - c))) (3 - c) 128, upd hp idx (hp (3 - c)))
+      else Stuck.
+Proof. exact O2_Slot.o2_remove_eq. Qed.
+Print Assumptions C12_open2n2_remove_moves_pair.
+
 (* placement_depends_on_known: everything the new placement reads (start bucket for a table of the same class,
    short hash, new hash-probe byte) is a function of the known bits. *)
 Theorem C12_start_bucket_depends_on_known :
